@@ -8,8 +8,9 @@ set -u
 ID=$1; WT=/tmp/seed/$2; OUT=/tmp/seed/$2-out; shift 2
 DST=/verif/seeded/$ID; mkdir -p $DST
 cp $OUT/patch.diff $OUT/meta.json $DST/ 2>/dev/null; cp $OUT/demo_test.go $DST/demo_test.go.txt 2>/dev/null
-res=$DST/confirm.txt; : > $res
-if [ -d $WT ]; then
+res=$DST/confirm.txt
+if [ "${SEED_PHASE:-all}" != check ] && [ -d $WT ]; then
+  : > $res
   cd $WT
   git checkout -q -- . ; git apply $DST/patch.diff || { echo "patch does not apply in worktree" | tee -a $res; }
   cp $DST/demo_test.go.txt demo_test.go
@@ -22,6 +23,8 @@ if [ -d $WT ]; then
   tail -5 /tmp/seed/$ID.with.log | sed 's/^/    with: /' >> $res
   cd /verif
 fi
+[ "${SEED_PHASE:-all}" = confirm ] && exit 0
+sed -i "/^check /,\$d" $res
 git -C /repo status --short | grep -q . && { echo "/repo not clean"; exit 2; }
 git -C /repo apply $DST/patch.diff || { echo "patch does not apply to /repo"; exit 2; }
 for p in "$@"; do
